@@ -248,8 +248,11 @@ def gen_script(rng, knobs):
     if not first and rng.random() < knobs["switch"]:
       new_style = rng.choice(knobs["styles"])
       if new_style != style:
-        # clean switch: erase both memories, let the screen rest
-        script += [["gap", rng.choice([20, 40])], ["ctl", "EDM"], ["ctl", "ENM"], ["gap", rng.choice([20, 60])]]
+        if rng.random() >= knobs.get("unclean", 0.0):
+          # clean switch: erase both memories, let the screen rest
+          script += [["gap", rng.choice([20, 40])], ["ctl", "EDM"], ["ctl", "ENM"], ["gap", rng.choice([20, 60])]]
+        else:
+          script += [["gap", rng.choice([20, 40])]]
         style = new_style
     first = False
     if style == "pop":
